@@ -446,8 +446,8 @@ def c01_12(ctx):
                     callee = mod.functions.get("Signature." + par.func.attr)
                     skip = 0 if callee is None else (0 if "staticmethod" in decorators(callee) else 1)
                 elif isinstance(par.func, ast.Name):
-                    r = ctx.repo.resolve_name(mod, par.func.id)
-                    callee = r[1] if r and isinstance(r[1], (ast.FunctionDef,)) else None
+                    r = ctx.repo.resolve_name(mod.name, par.func.id)
+                    callee = ctx.repo.module(r[0]).functions.get(r[1]) if r else None
                     skip = 0
                 if callee is None:
                     raise AnalysisError("Signature.parse passes the integer bytes to `%s`, which cannot be resolved" % ast.unparse(par.func))
